@@ -51,7 +51,7 @@ def run(ctx):
         raise Infra("self-test: corrupted vectors not reported: %s" % classes)
     res = ctx.harness_json("grammar", ["c20", vec], timeout=3000)
     n = len(vs) + len(cs)
-    if res["evaluations"] < n:
+    if res["evaluations"] < n and not res.get("failures"):
         raise Infra("harness replayed %d of %d vectors" % (res["evaluations"], n))
     ctx.traces += res["evaluations"]
     ctx.failures(res["failures"])
